@@ -11,6 +11,7 @@ import (
 	"bufio"
 	"flag"
 	"fmt"
+	"hash/fnv"
 	"os"
 	"runtime/debug"
 	"strings"
@@ -25,6 +26,10 @@ type prop struct {
 	timeout time.Duration
 	// pure: the ops are plain function calls; other library calls are made before each case (history.go)
 	pure bool
+	// par: the ops are deterministic functions of the case: one case in eight is ALSO evaluated on six
+	// goroutines at once, and every one of them must observe what the sequential evaluation observed
+	// (a package-level scratch buffer, a pool handed out twice … shows only under concurrent use)
+	par func(op string) bool
 }
 
 var props = map[string]*prop{}
@@ -52,7 +57,31 @@ func safeEval(p *prop, op string, args []string) string {
 		if p.pure && os.Getenv("VH_NO_HISTORY") == "" {
 			pollute(op, args)
 		}
-		ch <- res{p.eval(op, args)}
+		r := p.eval(op, args)
+		if p.par != nil && p.par(op) && r != "BAD-CASE" && parPick(op, args) {
+			const n = 6
+			out := make(chan string, n)
+			start := make(chan struct{})
+			for i := 0; i < n; i++ {
+				go func() {
+					defer func() {
+						if recover() != nil {
+							out <- "PANIC"
+						}
+					}()
+					<-start
+					out <- p.eval(op, args)
+				}()
+			}
+			close(start)
+			for i := 0; i < n; i++ {
+				if o := <-out; o != r {
+					r = "PARALLEL-EVALUATION-DIFFERS sequential: " + r + " parallel: " + o
+					break
+				}
+			}
+		}
+		ch <- res{r}
 	}()
 	to := p.timeout
 	if to == 0 {
@@ -64,6 +93,15 @@ func safeEval(p *prop, op string, args []string) string {
 	case <-time.After(to):
 		return "HANG"
 	}
+}
+
+func parPick(op string, args []string) bool {
+	h := fnv.New32a()
+	h.Write([]byte(op))
+	for _, a := range args {
+		h.Write([]byte(a))
+	}
+	return h.Sum32()%8 == 3
 }
 
 func emitLine(id, pid, op string, args []string, result string) {
